@@ -13,7 +13,104 @@ theorem getIdx_spec (key : Int) (n : Nat) :
     (-(n : Int) ≤ key → key < 0 → getIdx key n = some (key + n).toNat) ∧
     (key < -(n : Int) ∨ (n : Int) ≤ key → getIdx key n = none) ∧
     (∀ k, getIdx key n = some k → k < n) := by
-  sorry
+  unfold getIdx
+  refine ⟨?_, ?_, ?_, ?_⟩
+  · intro h1 h2
+    rw [if_neg (by simp; omega), if_neg (by omega)]
+  · intro h1 h2
+    rw [if_neg (by simp; omega), if_pos (by omega)]
+  · intro h
+    rw [if_pos (by simp; omega)]
+  · intro k
+    split
+    · simp
+    · rename_i hc
+      simp at hc
+      intro hk
+      simp at hk
+      split at hk <;> omega
+
+theorem lt_of_getD (c : List Bool) (k : Nat) (hc : ¬ c.getD k true = true) : k < c.length := by
+  rcases Nat.lt_or_ge k c.length with h | h
+  · exact h
+  · simp [List.getD, List.getElem?_eq_none h] at hc
+
+theorem load_len (l : Lazy) (k : Nat) : (l.load k).len = l.len := by
+  unfold Lazy.load Lazy.len; split <;> simp
+
+theorem foldl_load_len (ks : List Nat) (l : Lazy) : (ks.foldl (fun s k => s.load k) l).len = l.len := by
+  induction ks generalizing l with
+  | nil => rfl
+  | cons a t ih => simp [List.foldl_cons, ih, load_len]
+
+def LInv (l : Lazy) : Prop := l.log.Nodup ∧ ∀ k ∈ l.log, l.cache[k]? = some true
+
+theorem load_inv (l : Lazy) (k : Nat) (h : LInv l) : LInv (l.load k) := by
+  unfold Lazy.load
+  split
+  · exact h
+  · rename_i hc
+    obtain ⟨h1, h2⟩ := h
+    refine ⟨?_, ?_⟩
+    · have : k ∉ l.log := by
+        intro hk; have := h2 k hk; simp [List.getD, this] at hc
+      simp only [List.nodup_append, h1, true_and]
+      simp
+      intro a ha hak; subst hak; exact this ha
+    · intro k' hk'
+      simp at hk'
+      simp only [List.getElem?_set]
+      split
+      · rename_i hkk
+        subst hkk
+        have := lt_of_getD _ _ hc
+        simp [this]
+      · rcases hk' with hk' | hk'
+        · exact h2 k' hk'
+        · exact absurd hk'.symm ‹_›
+
+theorem load_mem (l : Lazy) (k k' : Nat) (h : k' ∈ (l.load k).log) : k' ∈ l.log ∨ (k' = k ∧ k < l.len) := by
+  unfold Lazy.load at h
+  split at h
+  · exact Or.inl h
+  · rename_i hc
+    simp at h
+    rcases h with h | h
+    · exact Or.inl h
+    · right
+      refine ⟨h, ?_⟩
+      exact lt_of_getD _ _ hc
+
+theorem load_log (l : Lazy) (k : Nat) : ∃ more, (l.load k).log = l.log ++ more := by
+  unfold Lazy.load
+  split
+  · exact ⟨[], by simp⟩
+  · exact ⟨[k], rfl⟩
+
+theorem foldl_load_inv (ks : List Nat) (l : Lazy) (h : LInv l) : LInv (ks.foldl (fun s k => s.load k) l) := by
+  induction ks generalizing l with
+  | nil => exact h
+  | cons a t ih => exact ih _ (load_inv l a h)
+
+theorem foldl_load_mem (ks : List Nat) (l : Lazy) (k' : Nat)
+    (h : k' ∈ (ks.foldl (fun s k => s.load k) l).log) : k' ∈ l.log ∨ (k' ∈ ks ∧ k' < l.len) := by
+  induction ks generalizing l with
+  | nil => exact Or.inl h
+  | cons a t ih =>
+    rcases ih _ h with h' | ⟨h1, h2⟩
+    · rcases load_mem _ _ _ h' with h'' | ⟨h1, h2⟩
+      · exact Or.inl h''
+      · exact Or.inr ⟨by simp [h1], by omega⟩
+    · rw [load_len] at h2
+      exact Or.inr ⟨by simp [h1], h2⟩
+
+theorem foldl_load_log (ks : List Nat) (l : Lazy) : ∃ more, (ks.foldl (fun s k => s.load k) l).log = l.log ++ more := by
+  induction ks generalizing l with
+  | nil => exact ⟨[], by simp⟩
+  | cons a t ih =>
+    obtain ⟨m1, h1⟩ := load_log l a
+    obtain ⟨m2, h2⟩ := ih (l.load a)
+    exact ⟨m1 ++ m2, by simp [h2, h1]⟩
 
 /-- the files an operation asks for -/
 def requestedBy (n : Nat) : LOp → List Nat
@@ -25,65 +122,303 @@ def requestedBy (n : Nat) : LOp → List Nat
 def requested (n : Nat) (ops : List LOp) : List Nat := ops.flatMap (requestedBy n)
 
 theorem step_len (l : Lazy) (op : LOp) : (l.step op).1.len = l.len := by
-  sorry
+  cases op with
+  | get key =>
+    simp only [Lazy.step, Lazy.get]
+    cases getIdx key l.len <;> simp [load_len]
+  | load k =>
+    simp only [Lazy.step]
+    split <;> simp [load_len]
+  | iter => simp only [Lazy.step, Lazy.iterAll, foldl_load_len]
+  | len => rfl
+
+theorem step_inv (l : Lazy) (op : LOp) (h : LInv l) : LInv (l.step op).1 := by
+  cases op with
+  | get key =>
+    simp only [Lazy.step, Lazy.get]
+    cases getIdx key l.len <;> simp [load_inv, h]
+  | load k =>
+    simp only [Lazy.step]
+    split <;> simp [load_inv, h]
+  | iter => exact foldl_load_inv _ _ h
+  | len => exact h
+
+theorem step_mem (l : Lazy) (op : LOp) (k : Nat) (h : k ∈ (l.step op).1.log) :
+    k ∈ l.log ∨ k ∈ requestedBy l.len op := by
+  cases op with
+  | get key =>
+    simp only [Lazy.step, Lazy.get] at h
+    simp only [requestedBy]
+    cases hg : getIdx key l.len with
+    | none => rw [hg] at h; exact Or.inl h
+    | some i =>
+      rw [hg] at h
+      rcases load_mem _ _ _ h with h' | ⟨h1, h2⟩
+      · exact Or.inl h'
+      · exact Or.inr (by simp [h1])
+  | load i =>
+    simp only [Lazy.step] at h
+    simp only [requestedBy]
+    split at h
+    · rcases load_mem _ _ _ h with h' | ⟨h1, h2⟩
+      · exact Or.inl h'
+      · exact Or.inr (by simp [h1, h2])
+    · exact Or.inl h
+  | iter =>
+    rcases foldl_load_mem _ _ _ h with h' | ⟨h1, h2⟩
+    · exact Or.inl h'
+    · exact Or.inr h1
+  | len => exact Or.inl h
+
+theorem step_log (l : Lazy) (op : LOp) : ∃ more, (l.step op).1.log = l.log ++ more := by
+  cases op with
+  | get key =>
+    simp only [Lazy.step, Lazy.get]
+    cases getIdx key l.len with
+    | none => exact ⟨[], by simp⟩
+    | some i => exact load_log l i
+  | load k =>
+    simp only [Lazy.step]
+    split
+    · exact load_log l k
+    · exact ⟨[], by simp⟩
+  | iter => exact foldl_load_log _ _
+  | len => exact ⟨[], by simp [Lazy.step]⟩
+
+theorem run_len (ops : List LOp) (l : Lazy) : (l.run ops).len = l.len := by
+  induction ops generalizing l with
+  | nil => rfl
+  | cons a t ih =>
+    show (Lazy.run (l.step a).1 t).len = _
+    rw [ih, step_len]
+
+theorem run_inv (ops : List LOp) (l : Lazy) (h : LInv l) : LInv (l.run ops) := by
+  induction ops generalizing l with
+  | nil => exact h
+  | cons a t ih => exact ih _ (step_inv l a h)
+
+theorem run_mem (ops : List LOp) (l : Lazy) (k : Nat) (h : k ∈ (l.run ops).log) :
+    k ∈ l.log ∨ k ∈ requested l.len ops := by
+  induction ops generalizing l with
+  | nil => exact Or.inl h
+  | cons a t ih =>
+    have h' : k ∈ (Lazy.run (l.step a).1 t).log := h
+    simp only [requested, List.flatMap_cons, List.mem_append]
+    rcases ih _ h' with h1 | h1
+    · rcases step_mem _ _ _ h1 with h2 | h2
+      · exact Or.inl h2
+      · exact Or.inr (Or.inl h2)
+    · rw [step_len] at h1
+      exact Or.inr (Or.inr h1)
+
+theorem init_inv (n : Nat) : LInv (Lazy.init n) := by
+  simp [LInv, Lazy.init]
+
+theorem popInit_inv (n : Nat) : LInv (populationInit n) := by
+  unfold populationInit
+  split
+  · exact load_inv _ _ (init_inv n)
+  · exact init_inv n
+
+theorem init_len (n : Nat) : (Lazy.init n).len = n := by simp [Lazy.init, Lazy.len]
+
+theorem popInit_len (n : Nat) : (populationInit n).len = n := by
+  unfold populationInit
+  split <;> simp [load_len, init_len]
 
 /-- **each file is read at most once, whatever the history of operations** — for a bare
 `LazyLoadingTrees` and for a `Population` built on it -/
 theorem load_at_most_once (n : Nat) (ops : List LOp) :
-    ((Lazy.init n).run ops).log.Nodup ∧ ((populationInit n).run ops).log.Nodup := by
-  sorry
+    ((Lazy.init n).run ops).log.Nodup ∧ ((populationInit n).run ops).log.Nodup :=
+  ⟨(run_inv ops _ (init_inv n)).1, (run_inv ops _ (popInit_inv n)).1⟩
 
 /-- **files are read only on demand**: every file in the read log was asked for by some operation of the
 history — apart from the probe of file 0 when the `Population` is constructed -/
 theorem loads_only_on_demand (n : Nat) (ops : List LOp) (k : Nat) :
     (k ∈ ((Lazy.init n).run ops).log → k ∈ requested n ops) ∧
     (k ∈ ((populationInit n).run ops).log → k = 0 ∨ k ∈ requested n ops) := by
-  sorry
+  constructor
+  · intro h
+    rcases run_mem _ _ _ h with h | h
+    · simp [Lazy.init] at h
+    · rwa [init_len] at h
+  · intro h
+    rcases run_mem _ _ _ h with h | h
+    · left
+      unfold populationInit at h
+      split at h
+      · rcases load_mem _ _ _ h with h | h
+        · simp [Lazy.init] at h
+        · exact h.1
+      · simp [Lazy.init] at h
+    · rw [popInit_len] at h
+      exact Or.inr h
 
 /-- whatever was asked for is loaded afterwards and is not read again by later operations (its slot is
 filled): the log after further operations keeps the earlier log as a prefix -/
 theorem log_monotone (l : Lazy) (ops : List LOp) : ∃ more, (l.run ops).log = l.log ++ more := by
-  sorry
+  induction ops generalizing l with
+  | nil => exact ⟨[], by simp [Lazy.run]⟩
+  | cons a t ih =>
+    obtain ⟨m1, h1⟩ := step_log l a
+    obtain ⟨m2, h2⟩ := ih (l.step a).1
+    refine ⟨m1 ++ m2, ?_⟩
+    show (Lazy.run (l.step a).1 t).log = _
+    simp [h2, h1]
 
 /-- **index i returns the tree of the i-th file** (negative indices count from the end; out of range is
 an IndexError and reads nothing) -/
 theorem get_returns (l : Lazy) (key : Int) :
     (∀ l' k, l.get key = some (l', k) → getIdx key l.len = some k ∧ l'.len = l.len ∧ l'.cache.getD k false = true) ∧
     (getIdx key l.len = none → l.get key = none ∧ (l.step (.get key)).1 = l) := by
-  sorry
+  constructor
+  · intro l' k h
+    simp only [Lazy.get] at h
+    cases hg : getIdx key l.len with
+    | none => simp [hg] at h
+    | some i =>
+      simp [hg] at h
+      obtain ⟨h1, h2⟩ := h
+      subst h1 h2
+      refine ⟨rfl, load_len _ _, ?_⟩
+      have hlt := (getIdx_spec key l.len).2.2.2 _ hg
+      unfold Lazy.len at hlt
+      unfold Lazy.load
+      split
+      · rename_i hc
+        simp [List.getD, hlt] at hc ⊢
+        exact hc
+      · simp [List.getD, hlt]
+  · intro h
+    simp [Lazy.step, Lazy.get, h]
 
 /-- iteration returns the files in order -/
-theorem iter_returns (l : Lazy) : (l.step .iter).2 = some (List.range l.len) := by
-  sorry
+theorem iter_returns (l : Lazy) : (l.step .iter).2 = some (List.range l.len) := rfl
+
 
 /-! ## chaining -/
 
+theorem cumsum_snoc (l : List Nat) (x : Nat) :
+    cumsum (l ++ [x]) = cumsum l ++ [(cumsum l).getLastD 0 + x] := by
+  simp [cumsum, List.foldl_append]
+
+theorem cumsum_spec_rev (l : List Nat) :
+    (cumsum l.reverse).length = l.length + 1 ∧ (cumsum l.reverse).getLastD 0 = l.reverse.sum ∧
+    ∀ i (h : i < (cumsum l.reverse).length), (cumsum l.reverse)[i] = (l.reverse.take i).sum := by
+  induction l with
+  | nil => simp [cumsum]
+  | cons a t ih =>
+    obtain ⟨h1, h2, h3⟩ := ih
+    have h2' : (cumsum t.reverse).getLast?.getD 0 = t.sum := by simpa using h2
+    rw [List.reverse_cons, cumsum_snoc]
+    refine ⟨by simp [h1], by simp [h2'], ?_⟩
+    intro i hi
+    rw [List.getElem_append]
+    split
+    · rename_i hlt
+      rw [h3 i hlt, List.take_append_of_le_length (by simp; omega)]
+    · rename_i hge
+      simp at hi
+      have : i = t.length + 1 := by omega
+      subst this
+      simp [h2', List.take_of_length_le]
+
+theorem cumsum_full (lens : List Nat) :
+    (cumsum lens).length = lens.length + 1 ∧ (cumsum lens).getLastD 0 = lens.sum ∧
+    ∀ i (h : i < (cumsum lens).length), (cumsum lens)[i] = (lens.take i).sum := by
+  have := cumsum_spec_rev lens.reverse
+  simpa using this
+
 theorem cumsum_spec (lens : List Nat) :
     (cumsum lens).length = lens.length + 1 ∧
-    ∀ i (h : i < (cumsum lens).length), (cumsum lens)[i] = (lens.take i).sum := by
-  sorry
+    ∀ i (h : i < (cumsum lens).length), (cumsum lens)[i] = (lens.take i).sum :=
+  ⟨(cumsum_full lens).1, (cumsum_full lens).2.2⟩
 
 /-- **chaining has the right total length** -/
-theorem chain_len (lens : List Nat) : chainLen lens = lens.sum := by
-  sorry
+theorem chain_len (lens : List Nat) : chainLen lens = lens.sum := (cumsum_full lens).2.1
+
+theorem cumsum_getD (lens : List Nat) (i : Nat) (h : i ≤ lens.length) :
+    (cumsum lens).getD i 0 = (lens.take i).sum := by
+  have hl := (cumsum_full lens).1
+  have hi : i < (cumsum lens).length := by omega
+  rw [← (cumsum_full lens).2.2 i hi]
+  simp [List.getD, hi]
+
+theorem bsearch_spec (cum : List Nat) (idx : Nat) (f i j : Nat)
+    (h1 : 1 ≤ i) (h2 : i ≤ j) (hf : j - i < f)
+    (hlo : cum.getD (i - 1) 0 ≤ idx) (hhi : idx < cum.getD j 0) :
+    1 ≤ bsearch cum idx f i j ∧ bsearch cum idx f i j ≤ j ∧
+    cum.getD (bsearch cum idx f i j - 1) 0 ≤ idx ∧ idx < cum.getD (bsearch cum idx f i j) 0 := by
+  induction f generalizing i j with
+  | zero => omega
+  | succ f ih =>
+    unfold bsearch
+    split
+    · rename_i hij
+      simp only
+      have hm1 : i ≤ (i + j) / 2 := by omega
+      have hm2 : (i + j) / 2 < j := by omega
+      split
+      · rename_i hc
+        have := ih ((i + j) / 2 + 1) j (by omega) (by omega) (by omega) (by simpa using hc) hhi
+        exact this
+      · rename_i hc
+        have := ih i ((i + j) / 2) h1 hm1 (by omega) hlo (by omega)
+        exact ⟨this.1, by omega, this.2.2⟩
+    · have : i = j := by omega
+      subst this
+      exact ⟨h1, Nat.le_refl _, hlo, hhi⟩
+
+theorem sum_take_succ (l : List Nat) (m : Nat) (h : m < l.length) :
+    (l.take (m + 1)).sum = (l.take m).sum + l[m] := by
+  rw [List.take_succ_eq_append_getElem h, List.sum_append, List.sum_singleton]
 
 /-- **chaining concatenates in order**: for every position `idx` of the concatenation (members may be
 empty) the binary search returns the member `m` and the offset `j` with
 `idx = |member 0| + … + |member m-1| + j` and `j < |member m|` -/
 theorem chain_index (lens : List Nat) (idx : Nat) (h : idx < lens.sum) :
     ∃ m j, chainGet lens (idx : Int) = some (m, j) ∧ m < lens.length ∧ j < lens.getD m 0 ∧ (lens.take m).sum + j = idx := by
-  sorry
+  have hn : 1 ≤ lens.length := by
+    cases lens with
+    | nil => simp at h
+    | cons a t => simp
+  have hfull := cumsum_full lens
+  have hg : getIdx (idx : Int) lens.sum = some idx := by
+    have := (getIdx_spec (idx : Int) lens.sum).1 (by omega) (by omega)
+    simpa using this
+  have hb := bsearch_spec (cumsum lens) idx (lens.length + 1) 1 lens.length (Nat.le_refl _) hn (by omega)
+    (by rw [cumsum_getD lens _ (by omega)]; simp)
+    (by rw [cumsum_getD lens _ (Nat.le_refl _)]; simpa using h)
+  generalize hr : bsearch (cumsum lens) idx (lens.length + 1) 1 lens.length = r at hb
+  obtain ⟨hb1, hb2, hb3, hb4⟩ := hb
+  have hm : r - 1 < lens.length := by omega
+  rw [cumsum_getD lens _ (by omega)] at hb3
+  rw [cumsum_getD lens _ hb2] at hb4
+  have hr' : r = (r - 1) + 1 := by omega
+  rw [hr', sum_take_succ lens (r - 1) hm] at hb4
+  refine ⟨r - 1, idx - (lens.take (r - 1)).sum, ?_, hm, ?_, by omega⟩
+  · simp only [chainGet, hfull.2.1, hg, Option.map_some, hr]
+    rw [cumsum_getD lens _ (by omega)]
+  · simp only [List.getD, List.getElem?_eq_getElem hm, Option.getD_some]
+    omega
 
 /-- negative indices count from the end of the concatenation; out of range is an IndexError -/
 theorem chain_index_neg (lens : List Nat) (key : Int) :
     (-(lens.sum : Int) ≤ key → key < 0 → chainGet lens key = chainGet lens (key + lens.sum)) ∧
     (key < -(lens.sum : Int) ∨ (lens.sum : Int) ≤ key → chainGet lens key = none) := by
-  sorry
+  have hfull := cumsum_full lens
+  constructor
+  · intro h1 h2
+    have ha := (getIdx_spec key lens.sum).2.1 h1 h2
+    have hb := (getIdx_spec (key + lens.sum) lens.sum).1 (by omega) (by omega)
+    simp only [chainGet, hfull.2.1, ha, hb]
+  · intro h
+    have ha := (getIdx_spec key lens.sum).2.2.1 h
+    simp only [chainGet, hfull.2.1, ha, Option.map_none]
 
 /-- a slice / filter view indexes through its index list -/
 theorem nest_index (idx : List Int) (key : Int) :
-    nestGet idx key = (getIdx key idx.length).map (fun k => idx.getD k 0) := by
-  sorry
+    nestGet idx key = (getIdx key idx.length).map (fun k => idx.getD k 0) := rfl
 
 -- non-vacuity / concrete behaviour
 example : ((populationInit 4).run [.get 2, .get (-1), .get 2, .iter, .get 0]).log = [0, 2, 3, 1] := by decide +kernel
